@@ -342,6 +342,13 @@ func run(prop, tier string, seed int64, repo, replay, scratch string, spec propS
 					m.add(&l)
 				}
 				err := cmd.Wait()
+				if os.Getenv("VERIF_DEBUG") != "" {
+					for _, l := range strings.Split(stderr.String(), "\n") {
+						if strings.HasPrefix(l, "#DEBUG") {
+							fmt.Fprintln(os.Stderr, l)
+						}
+					}
+				}
 				if ph.race {
 					m.mu.Lock()
 					m.races = append(m.races, stderr.String())
